@@ -1,0 +1,56 @@
+//go:build verif
+
+package mpt
+
+// Contracts for the verif build tag (comment-only; see /verif/DESIGN.md).
+
+//@ prop C10
+
+//@ func lcp
+//@ ensures[len] len(result) <= len(a) && len(result) <= len(b)
+//@ ensures[common] forall(i, 0, len(result), result[i] == a[i] && a[i] == b[i])
+//@ ensures[maximal] len(result) == len(a) || len(result) == len(b) || a[len(result)] != b[len(result)]
+//@ loop 0 invariant forall(j, 0, $i, a[j] == b[j])
+
+//@ func toNibbles
+//@ ensures[len] len(result) == 2*len(path) && fresh(result)
+//@ ensures[val] forall(i, 0, len(path), result[2*i] == path[i] / 16 && result[2*i+1] == path[i] % 16)
+//@ ensures[range] forall(i, 0, len(result), result[i] < 16)
+//@ loop 0 invariant[val] forall(j, 0, $i, result[2*j] == path[j] / 16 && result[2*j+1] == path[j] % 16)
+//@ loop 0 invariant[range] forall(j, 0, len(result), result[j] < 16)
+
+//@ func strToNibbles
+//@ requires len(path) >= 1
+//@ ensures[len] len(result) == 2*(len(path)-1) && fresh(result)
+//@ ensures[val] forall(i, 0, len(path)-1, result[2*i] == path[i+1] / 16 && result[2*i+1] == path[i+1] % 16)
+//@ loop 0 invariant[val] forall(j, 0, $i, result[2*j] == path[j+1] / 16 && result[2*j+1] == path[j+1] % 16)
+
+//@ func fromNibbles
+//@ requires forall(i, 0, len(path), path[i] < 16)
+//@ ensures[len] len(result) == len(path) / 2 && fresh(result)
+//@ ensures[val] forall(i, 0, len(result), result[i] == path[2*i]*16 + path[2*i+1])
+//@ loop 0 invariant[val] forall(j, 0, $i, result[j] == path[2*j]*16 + path[2*j+1])
+
+//@ func getLastIndex
+//@ requires len(kv) >= 1 && (len(kv[0].key) > 0 ==> forall(i, 1, len(kv), len(kv[i].key) > 0))
+//@ ensures[range] 1 <= result1 && result1 <= len(kv)
+//@ ensures[empty] len(kv[0].key) == 0 ==> result0 == lastChild && result1 == 1
+//@ ensures[run] len(kv[0].key) > 0 ==> result0 == kv[0].key[0] && forall(j, 0, result1, kv[j].key[0] == result0) && (result1 == len(kv) || kv[result1].key[0] != result0)
+//@ loop 0 invariant forall(j, 0, $i + 1, kv[j].key[0] == c)
+
+//@ func stripPrefix
+//@ requires forall(i, 0, len(kv), 0 <= n && n <= len(kv[i].key))
+//@ modifies kv[0:len(kv)]
+//@ ensures[len] forall(i, 0, len(kv), len(kv[i].key) == old(len(kv[i].key)) - n)
+//@ loop 0 invariant[done] forall(j, 0, $i, len(kv[j].key) == old(len(kv[j].key)) - n)
+//@ loop 0 invariant[todo] forall(j, $i, len(kv), same(kv[j].key, old(kv[j].key)))
+
+//@ func isEmpty
+//@ ensures result == is(n, EmptyNode)
+
+//@ func IsActiveValue
+//@ ensures result == (len(v) > 4 && v[len(v)-5] == 1)
+
+//@ func makeStorageKey
+//@ ensures[len] len(result) == 33 && fresh(result)
+//@ ensures[val] result[0] == storage.DataMPT && forall(i, 0, 32, result[1+i] == mptKey[i])
